@@ -24,19 +24,21 @@ the property and their own scratch git worktree of /repo (nothing from /verif) a
 breaks the property, still compiles, keeps the pinned suite at 143 passed, and needs something specific to manifest;
 each came back with `patch.diff` and a demonstration program.  I confirmed every one myself in a scratch worktree
 (`tools/try_seed.py`: pinned suite with the patch = 143 passed, demonstration exits 0 without and 1 with the patch)
-and then ran the property's quick check with `VERIF_REPO=<worktree>`.  The kept changes are in `seeded/<id>/`
+and then ran the property's quick check with `VERIF_REPO=<worktree>`; finally every kept change was replayed against /repo
+itself (`tools/replay_all_seeds.sh`: `git -C /repo apply`, quick check, `git -C /repo checkout -- .`; result in
+`seeded/<id>/in_repo.json` - all exit 1 with the pinned suite at 143 passed).  The kept changes are in `seeded/<id>/`
 (`patch.diff`, `demo.py`, `meta.json` with trigger, magnitude, my confirmation and the check results).  None of them is
 committed to /repo.  To replay one against /repo itself: `python3 tools/try_seed.py seeded/<id> <property> --in-repo`
 (applies the patch with `git -C /repo apply`, runs the checks, undoes it with `git -C /repo checkout -- .`).
 
-Four rounds (a-d; each later round was told which files/mechanisms the earlier ones had used and asked for a different layer; round c was pointed at rarely used options, second calls and boundary sizes, round d at unusual option combinations and numerical branches; a fifth round e, pointed at the kind of system, covers the properties that see molecules).
+Four rounds (a-d; each later round was told which files/mechanisms the earlier ones had used and asked for a different layer; round c was pointed at rarely used options, second calls and boundary sizes, round d at unusual option combinations and numerical branches; a fifth round e, pointed at the kind of system - basis contraction, units, extended or pruned systems, object histories -, covers the twelve properties that see molecules).
 %(n)d changes are kept; %(first)d were caught by the checks as they stood, %(missed)d were missed at first and led to a
 strengthened check (column *history*; entries reading "would have been missed" were strengthened on reading the seed's
 trigger, before the trial, because the generator provably lacked that input).  Every miss but one was a workload gap — an
 input class, order or history the generator did not produce; the exception (C04d) was an oracle weakness: finite-difference
 errors were scaled by the analytic outputs only, so a derivative that was wrongly zero where the value is zero was dropped as
 unresolved.  No miss was a tolerance, and every strengthened check stayed silent on the unchanged tree over VERIF_SEED 0-4.
-Miss rate by round (C17d pending): a 9/20, b 7/20, c 11/20, d 3/19 — the later rounds hit generators already widened by the
+Miss rate by round: a 9/20, b 7/20, c 11/20, d 3/20, e 6/12 — the later rounds hit generators already widened by the
 earlier ones.  After strengthening, every kept change is caught by the quick tier of its property's check;
 several are also caught by a neighbouring property's check (listed).  What this does *not* show: the seeds are the
 changes these agents thought of; a change whose trigger lies outside every generator's input classes is still missed.
